@@ -285,15 +285,17 @@ func ruleEach(c *Ctx, r *Report, clause, fnKey string, loopPred func(fi *FuncInf
 		r.add(clause, "each-iteration", key, desc, []string{fnKey}, []string{w.pos(fi.Decl.Pos())}, fmt.Sprintf("no range loop over %s in %s", loopDesc, fnKey))
 		return
 	}
-	g := w.cfgOf(fi)
-	var sk []skipSpec
-	if skips != nil {
-		sk = skips(fi)
-	}
 	var sites []string
 	viol := ""
 	for _, l := range loops {
-		s, v := w.eachIteration(fi, g, l, target(fi), sk, errExitOK)
+		// the loop may have been moved into a new function: judge it where it is written
+		owner := w.ownerOf(fi, l)
+		g := w.cfgOf(owner)
+		var sk []skipSpec
+		if skips != nil {
+			sk = skips(owner)
+		}
+		s, v := w.eachIteration(owner, g, l, target(owner), sk, errExitOK)
 		sites = append(sites, s...)
 		if v != "" {
 			viol = v
